@@ -3,7 +3,7 @@
    All statements are unbounded: every byte list, every tree of any depth and width, every integer,
    every decimal magnitude.  Model: Engine/Model.v (tied to the code by harness/vh/c18.py). *)
 From PsdV Require Import Base.Prelude Engine.Model Engine.Corr
-  Engine.ProofsLex Engine.ProofsLeaf Engine.ProofsParse Engine.ProofsWrite Engine.ProofsFuel.
+  Engine.ProofsLex Engine.ProofsLeaf Engine.ProofsParse Engine.ProofsWrite Engine.ProofsFuel Engine.ProofsCount.
 
 (* ------------------------------------------------------------------ strings *)
 (* 1. the three sequential un-escaping replaces undo the three sequential escaping replaces, for
@@ -119,6 +119,15 @@ Theorem rewrite_unchanged : forall ly d bs, wf_tree (TDict d) = true ->
   match parse bs with Ok d' => write ly d' | Err e => Err e end = Ok bs.
 Proof. exact ProofsWrite.rewrite_unchanged. Qed.
 Print Assumptions rewrite_unchanged.
+
+(* 9b. the number write() returns (accumulated piece by piece as the code does) is the number of bytes written, for
+       every tree and both layouts: RawData / write_length_block record it as the length of the engine data embedded
+       in a type-tool block, so the embedded data is delimited exactly *)
+Theorem write_count_truthful : forall ly d bs, write ly d = Ok bs -> write_count ly d = Zlen bs.
+Proof. exact ProofsCount.write_count_truthful. Qed.
+Print Assumptions write_count_truthful.
+Example write_count_sample : write_count Indented sample = 238 /\ write_count Compact sample = 179.
+Proof. split; vm_compute; reflexivity. Qed.
 
 (* 10. the fuel of the model's tokenizer and reader is always sufficient: OutOfFuel is never an outcome *)
 Theorem parse_never_out_of_fuel : forall data, parse data <> Err OutOfFuel.
